@@ -164,8 +164,8 @@ func (d *Device) handleABSEvent(ie *input.InputEvent) {
 	}
 
 	// prevent from repeating value that was already sent before
-	lastValue := d.lastAnalogValue[ie.Source.Name][ie.Event.Code]
-	if lastValue == value {
+	lastValue, seen := d.lastAnalogValue[ie.Source.Name][ie.Event.Code]
+	if seen && lastValue == value { // the very first position of an axis is never a repetition
 		return
 	}
 	d.lastAnalogValue[ie.Source.Name][ie.Event.Code] = value
